@@ -147,6 +147,12 @@ def main(argv=None):
     known_hit, violations = {}, {}
     for key, n in by_key.items():
         (known_hit if key in known else violations)[key] = n
+    # rate caps: a listed finding describes how often the unchanged library is fooled under a hostile workload; a
+    # breakage that multiplies that frequency is a different violation even though every single witness looks alike
+    for key, (den_counter, cap, min_den) in getattr(mod, 'RATE_CAPS', {}).items():
+        den = counters.get(den_counter, 0)
+        if key in known_hit and den >= min_den and known_hit[key] > cap * den:
+            violations['rate-exceeded:%s(%d of %d %s, cap %.0f%%)' % (key, known_hit[key], den, den_counter, 100 * cap)] = known_hit[key]
     lines = []
     for key, n in sorted(known_hit.items()):
         lines.append('KNOWN-FINDING: property=%s %s [%s; %d executions this run]'
@@ -155,7 +161,8 @@ def main(argv=None):
     if violations:
         os.makedirs(os.path.join(HOME, 'replays'), exist_ok=True)
         for key in sorted(violations)[:10]:
-            wit = next((w for w in witnesses if w['key'] == key), None)
+            base_key = key.split(':', 1)[1].split('(')[0] if key.startswith('rate-exceeded:') else key
+            wit = next((w for w in witnesses if w['key'] == base_key), None)
             blob = json.dumps(wit, sort_keys=True)
             path = os.path.join(HOME, 'replays', '%s-%s.json'
                                 % (prop, hashlib.sha1(blob.encode()).hexdigest()[:12]))
